@@ -2,10 +2,12 @@ package main
 
 import (
 	"encoding/json"
+
 	"os"
 	"path/filepath"
 	"strings"
 
+	"verifh/cases"
 	"verifh/run"
 )
 
@@ -55,6 +57,39 @@ func replayDetImpl(c *Ctx, raw json.RawMessage) bool {
 					return true
 				}
 			}
+		}
+	}
+	return false
+}
+
+func replayTies(c *Ctx, raw json.RawMessage) bool {
+	var rp struct {
+		Input struct {
+			Case cases.ScanCase `json:"case"`
+			Args []string       `json:"args"`
+		} `json:"input"`
+	}
+	json.Unmarshal(raw, &rp)
+	scratch, _ := mkScratch(c.Scratch)
+	race, err := run.BuildSizer(filepath.Join(scratch, "racebin"), "verif", true)
+	if err != nil {
+		Infra("%v", err)
+	}
+	repoDir := filepath.Join(scratch, "r")
+	sc := rp.Input.Case
+	if _, err := materialiseCase(repoDir, &sc); err != nil {
+		Infra("replay: %v", err)
+	}
+	first := ""
+	for rep := 0; rep < 40; rep++ {
+		res := race.Run(run.Opt{Dir: repoDir, Args: rp.Input.Args, Home: scratch, Env: []string{"GORACE=halt_on_error=0"}})
+		if res.Exit != 0 || strings.Contains(string(res.Stderr), "DATA RACE") {
+			return true
+		}
+		if first == "" {
+			first = string(res.Stdout)
+		} else if first != string(res.Stdout) {
+			return true
 		}
 	}
 	return false
